@@ -727,7 +727,7 @@ func run(t *vk.T) {
 		plans = sel
 	}
 
-	// light cases a few at a time, the heavy ones (limits of 64 to 256 MiB: up to ~1 GiB each) one at a time
+	// light cases a few at a time, the heavy ones (limits of 32 to 256 MiB: up to ~1 GiB each) one at a time
 	var light, heavy []*plan
 	for _, p := range plans {
 		if p.c.Fam == "large" {
